@@ -11,6 +11,10 @@ class Ctx(object):
         self._lex = None
         self._cg = None
         self._mods = None
+        # fresh-returning functions are computed from the IR (a renamed or new allocation wrapper is picked up)
+        from . import ownership
+        self.fresh_returning = summaries.fresh_returning(self.modules)
+        ownership.FRESH_RETURNING = set(ownership.FRESH_RETURNING) | set(self.fresh_returning)
 
     @property
     def confuse(self):
